@@ -654,6 +654,11 @@ func (f *MemFile) Write(b []byte) (n int, err error) {
 
 	nd.mu.Lock()
 
+	if diff := f.at - int64(len(nd.data)); diff > 0 {
+		// the offset is beyond the end of the file : fill the gap with zeros.
+		nd.data = append(nd.data, make([]byte, diff)...)
+	}
+
 	n = copy(nd.data[f.at:], b)
 	if n < len(b) {
 		nd.data = append(nd.data, b[n:]...)
